@@ -136,7 +136,7 @@ def evaluate(ctx, scs):
 def run(ctx):
     ctx.check_theorems("ActsModel.Props.C02")
     scs = ctx.corpus() + matrix()
-    n = 300 if ctx.tier == "quick" else 6000
+    n = 1200 if ctx.tier == "quick" else 6000
     scs += randoms(ctx.seed, n)
     scs += reloads(ctx.seed, 40 if ctx.tier == "quick" else 600)
     # cancels of completed acts after the following steps have made partial progress (the C08 cancel family)
